@@ -27,6 +27,13 @@ def run(ctx):
         for k, v in st.items(): stats[k] = stats.get(k, 0) + v
     ctx.stats['generator_distribution'] = stats
     jobs += suites.core_suite(ctx, ctx.budget(240, 4000), faults=0.03)
+    # one defeat function shared by try blocks of both kinds in several functions, in every emission order
+    import gen_special
+    shared = gen_special.shared_defeat_programs()
+    for w in ((2,) if ctx.quick else (2, 3, 4)):
+        for un in (False, True):
+            jobs += [('shd_%s_%s_w%d_%d' % (tag, a[0], w, un), src, a, w, 200, un, 300000) for tag, src, a in shared]
+    ctx.stats['shared_defeat_function_programs'] = len(shared)
     tally, bad, res = suites.differential(ctx, jobs, None, label='time-travel')
     bt = sum(1 for r in res.values() if 'src' in r and r['src'].backtracks > 0)
     ctx.stats['runs_with_backtracking'] = bt
